@@ -38,7 +38,7 @@ def suite(cwd):
 
 
 def main():
-    pid, src = sys.argv[1], sys.argv[2]
+    pid, src = sys.argv[1], os.path.abspath(sys.argv[2])
     tier = "quick"
     props = [pid]
     name = pid
@@ -52,7 +52,7 @@ def main():
         elif a == "--name":
             name = args.pop(0)
     patch = os.path.join(src, "SEED_patch.diff") if os.path.exists(os.path.join(src, "SEED_patch.diff")) else os.path.join(src, "patch.diff")
-    demos = [f for f in os.listdir(src) if f.endswith("_test.go") and "seeded" in f]
+    demos = [f for f in os.listdir(src) if (f.endswith("_test.go") or f.endswith("_test.go.txt")) and "seeded" in f]
     scratch = "/tmp/sv-%s" % name
     sh(["git", "-C", "/repo", "worktree", "remove", "--force", scratch], "/")
     shutil.rmtree(scratch, ignore_errors=True)
@@ -69,8 +69,10 @@ def main():
             m = re.search(r"^package (\w+)", txt, re.M)
             sub = {"saml2": ".", "types": "types", "uuid": "uuid", "saml2_test": "."}.get(m.group(1), ".")
             demo_pkg[d] = sub
-            shutil.copy(os.path.join(src, d), os.path.join(scratch, sub, d))
-        race = "-race" in open(os.path.join(src, "SEED_meta.txt")).read() if os.path.exists(os.path.join(src, "SEED_meta.txt")) else False
+            shutil.copy(os.path.join(src, d), os.path.join(scratch, sub, d[:-4] if d.endswith(".txt") else d))
+        race = False
+        if os.path.exists(os.path.join(src, "SEED_meta.txt")):
+            race = "-race" in open(os.path.join(src, "SEED_meta.txt")).read()
         pkgs = sorted(set("./" + p if p != "." else "." for p in demo_pkg.values()))
         demo_cmd = ["go", "test", "-vet=off", "-count=1", "-run", "TestSeededDemo"] + (["-race"] if race else []) + pkgs
         a = sh(demo_cmd, scratch)
@@ -88,7 +90,7 @@ def main():
         c = sh(demo_cmd, scratch)
         res["demo_changed"] = "fail" if c.returncode != 0 else "PASS"
         for d in demo_pkg:
-            os.remove(os.path.join(scratch, demo_pkg[d], d))
+            os.remove(os.path.join(scratch, demo_pkg[d], d[:-4] if d.endswith(".txt") else d))
         res["checks"] = {}
         for prop in props:
             t0 = time.time()
@@ -109,9 +111,11 @@ def main():
         if ok:
             out = os.path.join(VERIF, "seeded", name)
             os.makedirs(out, exist_ok=True)
-            shutil.copy(patch, os.path.join(out, "patch.diff"))
+            if os.path.abspath(patch) != os.path.abspath(os.path.join(out, "patch.diff")):
+                shutil.copy(patch, os.path.join(out, "patch.diff"))
             for d in demos:
-                shutil.copy(os.path.join(src, d), os.path.join(out, d + ".txt"))  # .txt: keep it out of any go build
+                if os.path.abspath(src) != os.path.abspath(out):
+                    shutil.copy(os.path.join(src, d), os.path.join(out, d if d.endswith(".txt") else d + ".txt"))  # .txt: keep it out of any go build
             needs = ""
             if os.path.exists(os.path.join(src, "SEED_meta.txt")):
                 needs = open(os.path.join(src, "SEED_meta.txt")).read()
